@@ -129,6 +129,21 @@ PROPERTIES["C17"] = dict(
     assumptions=[],
 )
 
+PROPERTIES["C05"] = dict(
+    units=["handler"],
+    technique="Verus contracts on the extracted real functions (header-map view; precondition on the upstream write primitive)",
+    level_text="Deductive proof (Verus/Z3) for every client header set: the request handed to the upstream write primitive has exactly one "
+               "x-ms-azure-host-claims value, equal to the JSON stating whether the ATTRIBUTED caller is elevated, exactly one "
+               "x-ms-azure-host-date value produced by the proxy's clock in this call, and on signed requests exactly one authorization value "
+               "(the computed one); proved on handle_new_http_request / handle_request_with_signature extracted verbatim.",
+    level_note="Trusted: http::HeaderMap::insert replaces every value of a case-normalised name (assumed spec, from the crate documentation); "
+               "hyper lower-cases incoming header names into HeaderName; E6: the claims text is the format! literal's segments with the two "
+               "displayed arguments; get_date_time_rfc1123_string is the proxy's clock. Not covered: an authorization header on a request the "
+               "proxy does not sign (no key latched, exempt URLs) is forwarded as the client sent it.",
+    design_ref="DESIGN.md section 3 C05",
+    assumptions=[],
+)
+
 NOT_APPLICABLE = {
     "C12": "secrecy over all outputs is a hyper-property (non-interference); no function contract expressible in Verus/Kani/CBMC here decides 'does not depend on the key' for format!/Display-built text, and a syntactic taint scan is a different family (DESIGN.md section 4)",
 }
